@@ -25,22 +25,22 @@ vars == <<lines, hist, agg, file, dtotal, dexp, now, tf, tl, ctx, ntrees, ins, f
 Line(k, m, u, h, s, ra, pa, internal) == [k |-> k, m |-> m, u |-> u, h |-> h, s |-> s, ra |-> ra, pa |-> pa, internal |-> internal]
 It(r, x) == [r |-> r, x |-> x]
 
-L1 == Line("ok", "GET", "a/1", "a", 429, <<It("fixed_response", <<"obtained_response">>)>>, <<>>, FALSE)
-L2 == Line("ok", "GET", "a/2", "a", 200, <<It("fixed_response", <<"obtained_response", "obtained_response">>)>>, <<>>, FALSE)
-L3 == Line("ok", "POST", "b/x", "b", 200, <<It("authentication", <<"modified_headers">>), It("fixed_response", <<"no_op">>)>>,
+L1 == Line("ok", "GET", "h.com/d/1", "h.com", 429, <<It("fixed_response", <<"obtained_response">>)>>, <<>>, FALSE)
+L2 == Line("ok", "GET", "h.com/d/2", "h.com", 200, <<It("fixed_response", <<"obtained_response", "obtained_response">>)>>, <<>>, FALSE)
+L3 == Line("ok", "POST", "api.io/v1/x", "api.io", 200, <<It("authentication", <<"modified_headers">>), It("fixed_response", <<"no_op">>)>>,
            <<It("caching", <<"modified_response">>), It("retry", <<"retry_request">>)>>, FALSE)
-L4 == Line("ok", "GET", "a/1", "a", 200, <<>>, <<>>, FALSE)
-L5 == Line("ok", "GET", "a/1", "a", 200, <<It("fixed_response", <<"obtained_response">>)>>, <<>>, TRUE)
+L4 == Line("ok", "GET", "h.com/d/1", "h.com", 200, <<>>, <<>>, FALSE)
+L5 == Line("ok", "GET", "h.com/d/1", "h.com", 200, <<It("fixed_response", <<"obtained_response">>)>>, <<>>, TRUE)
 L6 == Line("raw", "", "", "", 0, <<>>, <<>>, FALSE)
-L7 == Line("ok", "POST", "b/x", "b", 200, <<It("authentication", <<"generate_request">>)>>, <<>>, FALSE)
-L8 == Line("ok", "GET", "a/1", "a", 200, <<It("quota_magic", <<"no_op">>)>>, <<>>, FALSE)
+L7 == Line("ok", "POST", "api.io/v1/x", "api.io", 200, <<It("authentication", <<"generate_request">>)>>, <<>>, FALSE)
+L8 == Line("ok", "GET", "h.com/d/1", "h.com", 200, <<It("quota_magic", <<"no_op">>)>>, <<>>, FALSE)
 
 Letters == IF Mode = "direct" THEN {L1, L2, L3, L4, L5} ELSE {L1, L2, L3, L4, L5, L6, L7}
 Batches == UNION {[1..n -> Letters] : n \in 0..MaxBatch}
 
 \* the known-endpoints file of generation g and what the tree built from it matches
-KnownOf(g) == IF g = 1 THEN {"a/{id}"} ELSE {}
-Matches(p, u) == p = "a/{id}" /\ u \in {"a/1", "a/2"}
+KnownOf(g) == IF g = 1 THEN {"h.com/d/{id}"} ELSE {}
+Matches(p, u) == p = "h.com/d/{id}" /\ u \in {"h.com/d/1", "h.com/d/2"}
 LookupI(t, u, I) ==
     IF \E p \in KnownOf(t.gen) : Matches(p, u) THEN [u |-> u, match |-> TRUE, n |-> CHOOSE p \in KnownOf(t.gen) : Matches(p, u)]
     ELSE IF <<t.id, u>> \in I THEN [u |-> u, match |-> TRUE, n |-> u]
@@ -66,18 +66,21 @@ Finish ==
     /\ LET dec   == IF Mode = "plugin" THEN Decode(fbatch) ELSE fbatch
            live  == SelectSeq(dec, LAMBDA r : ~r.internal)
            ins2  == IF Mode = "plugin" /\ Len(dec) > 0 THEN ins \cup {<<ftree.id, live[i].u>> : i \in DOMAIN live} ELSE ins
-           be    == [i \in DOMAIN dec |-> [rec |-> dec[i], e |-> EndpointOf(dec[i], LookupI(ftree, dec[i].u, ins2))]]
+           be    == [i \in DOMAIN dec |-> [rec |-> dec[i], e |-> EndpointOf(dec[i], LookupI(ftree, dec[i].u, IF Bug = "benign_remedy_first" THEN ins ELSE ins2))]]
            agg2  == IF Flows THEN agg ELSE Run(agg, be, now)
            file2 == IF Flows \/ Len(dec) = 0 THEN file
                     ELSE PersistView(agg2, IF Bug = "batch_total" THEN Len(Live(be)) ELSE agg2.total)
            dt2   == IF Mode = "plugin" /\ Len(dec) > 0 THEN dtotal + Len(live) ELSE dtotal
            \* ------------------------------------------------------------------------------------------ P side
            attr  == {LookupI(ftree, fbatch[i].u, ins2) : i \in {i \in DOMAIN fbatch : fbatch[i].k = "ok"}}
+           attr0 == {LookupI(ftree, fbatch[i].u, ins) : i \in {i \in DOMAIN fbatch : fbatch[i].k = "ok"}}
            disc  == [total |-> dt2]
            dlaw(k) == IF Mode = "plugin" THEN DiscLaw(dexp, fbatch, k, disc) ELSE "ok"
-           good  == {k \in OpenChoices(fbatch) : dlaw(k) = "ok" /\ (Flows \/ OutLaw(Extend(hist, fbatch, attr, k), file2) = "ok")}
-           keep  == IF good = {} THEN {} ELSE CHOOSE k \in good : TRUE
-           h2    == IF Flows THEN hist ELSE Extend(hist, fbatch, attr, keep)
+           good  == {c \in OpenChoices(fbatch) \X {attr, attr0} :
+                        dlaw(c[1]) = "ok" /\ (Flows \/ OutLaw(Extend(hist, fbatch, c[2], c[1]), file2) = "ok")}
+           pick  == IF good = {} THEN <<{}, attr>> ELSE CHOOSE c \in good : TRUE
+           keep  == pick[1]
+           h2    == IF Flows THEN hist ELSE Extend(hist, fbatch, pick[2], keep)
            nc    == NCounted(fbatch, keep)
            tl2   == IF nc > 0 /\ ~Flows THEN [lo |-> now, hi |-> now] ELSE tl
            tf2   == IF nc > 0 /\ ~Flows /\ tf = None THEN [lo |-> now, hi |-> now] ELSE tf
@@ -142,6 +145,5 @@ NeverInvalidTree == ctx.gen <= fgen
 \* reachability witnesses (each is EXPECTED to be violated)
 W_TwoEndpoints == ~(file.ok /\ \E x \in SeqSet(file.rs) : Len(x.eps) >= 2)
 W_SwapDuringFlush == ~(fpc = "got" /\ ftree # ctx)
-W_CountsSurviveRefresh == ~(ctx.gen = 1 /\ ctx.id > 1 /\ Len(hist) >= 2 /\ usedGen = 1 /\ \E i \in DOMAIN hist : hist[i].e = "a/1")
-W_OpenLineSeen == ~(lines > 0 /\ dexp < lines /\ \E i \in DOMAIN fbatch : Open(fbatch[i]))
+W_CountsSurviveRefresh == ~(ctx.gen = 1 /\ ctx.id > 1 /\ Len(hist) >= 2 /\ usedGen = 1 /\ \E i \in DOMAIN hist : hist[i].e = "h.com/d/1")
 ================================================================================
